@@ -11,6 +11,8 @@ func init() { register("C03", checkC03) }
 
 func checkC03(cx *Ctx, r *Report) {
 	w, fx := cx.W, cx.Fx
+	// request data must not be shared between requests through recycled buffers (R-POOL, see C15)
+	cx.checkPoolEscape(r)
 	r.Clauses = []string{
 		"wiring at the callback (unchanged copies): InResponseTo on the response and in the subject confirmation <- GetAuthRequestID(); Destination, Recipient <- GetAccessConsumerServiceURL(); response and assertion Issuer <- the IdP entity ID; Audience <- the result of GetEntityIDByAppID(ctx, GetApplicationID()); subject NameID text <- the user name storage set; attribute names, name formats, friendly names and values <- exactly what storage set through the AttributeSetter (or the fixed standard names); RelayState in the form and in the redirect query <- GetRelayState(); user lookup by GetApplicationID() / GetUserID() of the same request, into the same Attributes object the response is built from",
 		"nothing dropped or added: GetSAML appends every custom attribute unconditionally and a standard attribute exactly when its value is non-empty; an assertion is built only on paths where the storage call that fills in the user's data returned a nil error (no partially filled record is asserted)",
@@ -187,7 +189,7 @@ func checkC03(cx *Ctx, r *Report) {
 	cx.checkBuildRedirectQuery(r)
 	cx.checkIDs(r, vf, 2)
 	_ = fx
-	r.Min("R-VFG", 35)
+	r.Min("R-VFG", 20)
 }
 
 // checkGetSAML: every append in GetSAML is either in the loop over the custom attributes under no other
